@@ -80,7 +80,7 @@ def strategy(tier):
 
 
 def budget(tier):
-    return 60 if tier == "quick" else 2500
+    return 60 if tier == "quick" else 1500
 
 
 CONFIGS = [  # (strategy, header, footnote, source, nrow)
